@@ -1645,6 +1645,18 @@ impl<'de, 'e> de::Deserializer<'de> for YamlDeserializer<'de, 'e> {
             // End of input → None
             None => visitor.visit_none(),
 
+            // Placeholder for an alias to a recursive anchor that is still being read
+            // (`RcRecursion` / `ArcRecursion` inside an `Option`): that is a value, not a null.
+            Some(Ev::Scalar {
+                anchor, tag, value, ..
+            }) if *anchor != 0
+                && tag == &SfTag::Null
+                && value.is_empty()
+                && anchor_store::recursive_anchor_in_progress(*anchor) =>
+            {
+                visitor.visit_some(self)
+            }
+
             // Tagged null → None regardless of style/value
             Some(Ev::Scalar { tag, .. }) if tag == &SfTag::Null => {
                 let _ = self.ev.next()?; // consume
